@@ -7,6 +7,7 @@
 package main
 
 import (
+	"archive/zip"
 	"bytes"
 	"context"
 	"crypto/sha256"
@@ -38,10 +39,11 @@ type treeSpec struct {
 	Files int `json:"files"` // files per directory
 	Big   int `json:"big"`   // size of /t/src/big.bin (0: absent)
 	Empty int `json:"empty"` // empty directories /t/src/eXXX
+	Deep  int `json:"deep"`  // levels of /t/src/zzz/zzz/...: each holds a.txt and then, as its LAST entry, the next level
 }
 
 func (t treeSpec) entries() int {
-	n := t.Dirs*(t.Files+1) + 3 + t.Empty // + chain a/b/c.txt
+	n := t.Dirs*(t.Files+1) + 3 + t.Empty + 2*t.Deep // + chain a/b/c.txt
 	if t.Big > 0 {
 		n++
 	}
@@ -54,8 +56,58 @@ type fsEnv struct {
 	fs    *filesystem.VFS
 	spec  treeSpec
 	open  filesystem.File // a handle some entry points need (opened before the hook is armed)
+	result []string           // what the call handed back (see setResult)
 	pmap  func(string) string // canonical path ("/t/...") -> path on this back end (nil: identity)
 	base  string              // OS back end: the scratch directory of this environment
+}
+
+// setResult records what the call handed back (listing, content, digest, ...) in a form comparable between runs
+func (e *fsEnv) setResult(v any) {
+	var out []string
+	switch x := v.(type) {
+	case []string:
+		out = append(out, x...)
+	case []byte:
+		out = []string{fmt.Sprintf("%d bytes %x", len(x), sha256.Sum256(x))}
+	default:
+		out = []string{fmt.Sprint(x)}
+	}
+	for i := range out {
+		if e.base != "" {
+			out[i] = strings.ReplaceAll(out[i], e.base, "")
+		}
+	}
+	e.result = out
+}
+
+func (e *fsEnv) recWalk(p string, _ os.FileInfo, err error) error {
+	if err == nil {
+		if e.base != "" {
+			p = strings.ReplaceAll(p, e.base, "")
+		}
+		e.result = append(e.result, p)
+	}
+	return err
+}
+
+// zipResult: the entries (name, size) of the archive the call produced
+func (e *fsEnv) zipResult(err error) error {
+	b, rerr := afero.ReadFile(e.inner, e.P("/t/out.zip"))
+	if rerr != nil {
+		e.result = []string{"no archive"}
+		return err
+	}
+	zr, zerr := zip.NewReader(bytes.NewReader(b), int64(len(b)))
+	if zerr != nil {
+		e.result = []string{"unreadable archive"}
+		return err
+	}
+	var out []string
+	for _, f := range zr.File {
+		out = append(out, fmt.Sprintf("%s:%d", f.Name, f.UncompressedSize64))
+	}
+	e.result = out
+	return err
 }
 
 // P maps a canonical path of the entry-point table to the path to use on this environment's back end
@@ -93,6 +145,16 @@ func populate(fs filesystem.FS, spec treeSpec) error {
 	}
 	for d := 0; d < spec.Empty; d++ {
 		if err := fs.MkDir(fmt.Sprintf("/t/src/e%03d", d)); err != nil {
+			return err
+		}
+	}
+	deep := "/t/src"
+	for d := 0; d < spec.Deep; d++ {
+		deep += "/zzz"
+		if err := fs.MkDir(deep); err != nil {
+			return err
+		}
+		if err := fs.WriteFile(deep+"/a.txt", pattern(9+d, d), 0o644); err != nil {
 			return err
 		}
 	}
@@ -168,6 +230,10 @@ func snapshot(inner afero.Fs) map[string]string {
 			out[p] = fmt.Sprintf("d:%o", info.Mode().Perm())
 			return nil
 		}
+		if strings.HasSuffix(p, "out.zip") { // compared through its entries (zipResult): the bytes embed modification times
+			out[p] = "f:archive"
+			return nil
+		}
 		b, _ := afero.ReadFile(inner, p)
 		out[p] = fmt.Sprintf("f:%x:%o", sha256.Sum256(b), info.Mode().Perm())
 		return nil
@@ -217,24 +283,27 @@ func entryPoints() []entryPoint {
 	openDir := func(e *fsEnv) (err error) { e.open, err = e.fs.GenericOpen(e.P("/t/src")); return }
 	openFile := func(e *fsEnv) (err error) { e.open, err = e.fs.GenericOpen(e.P("/t/src/a/b/c.txt")); return }
 	return []entryPoint{
-		{Name: "Walk", Methods: []string{"WalkWithContext"}, Run: func(ctx context.Context, e *fsEnv) error { return e.fs.WalkWithContext(ctx, e.P("/t/src"), passWalk) }},
+		{Name: "Walk", Methods: []string{"WalkWithContext"}, Run: func(ctx context.Context, e *fsEnv) error { return e.fs.WalkWithContext(ctx, e.P("/t/src"), e.recWalk) }},
 		{Name: "WalkExcl", Methods: []string{"WalkWithContextAndExclusionPatterns"}, Run: func(ctx context.Context, e *fsEnv) error {
-			return e.fs.WalkWithContextAndExclusionPatterns(ctx, e.P("/t/src"), passWalk, "f000.*")
+			return e.fs.WalkWithContextAndExclusionPatterns(ctx, e.P("/t/src"), e.recWalk, "f000.*")
 		}},
-		{Name: "ReadFile", Methods: []string{"ReadFileWithContext"}, Run: func(ctx context.Context, e *fsEnv) error { _, err := e.fs.ReadFileWithContext(ctx, e.P("/t/src/big.bin")); return err }},
+		{Name: "ReadFile", Methods: []string{"ReadFileWithContext"}, Run: func(ctx context.Context, e *fsEnv) error { res, err := e.fs.ReadFileWithContext(ctx, e.P("/t/src/big.bin")); e.setResult(res); return err }},
 		{Name: "ReadFileLimits", Methods: []string{"ReadFileWithContextAndLimits"}, Run: func(ctx context.Context, e *fsEnv) error {
-			_, err := e.fs.ReadFileWithContextAndLimits(ctx, e.P("/t/src/big.bin"), lim())
+			res, err := e.fs.ReadFileWithContextAndLimits(ctx, e.P("/t/src/big.bin"), lim())
+			e.setResult(res)
 			return err
 		}},
 		{Name: "ReadFileContent", Methods: []string{"ReadFileContent"}, Prep: openFile, Run: func(ctx context.Context, e *fsEnv) error {
-			_, err := e.fs.ReadFileContent(ctx, e.open, lim())
+			res, err := e.fs.ReadFileContent(ctx, e.open, lim())
+			e.setResult(res)
 			return err
 		}},
 		{Name: "WriteFile", Methods: []string{"WriteFileWithContext"}, Run: func(ctx context.Context, e *fsEnv) error {
 			return e.fs.WriteFileWithContext(ctx, e.P("/t/new.bin"), pattern(100000, 9), 0o644)
 		}},
 		{Name: "WriteToFile", Methods: []string{"WriteToFile"}, Run: func(ctx context.Context, e *fsEnv) error {
-			_, err := e.fs.WriteToFile(ctx, e.P("/t/new2.bin"), bytes.NewReader(pattern(100000, 5)), 0o644)
+			res, err := e.fs.WriteToFile(ctx, e.P("/t/new2.bin"), bytes.NewReader(pattern(100000, 5)), 0o644)
+			e.setResult(res)
 			return err
 		}},
 		{Name: "CleanDir", Methods: []string{"CleanDirWithContext"}, Run: func(ctx context.Context, e *fsEnv) error { return e.fs.CleanDirWithContext(ctx, e.P("/t/src")) }},
@@ -254,17 +323,20 @@ func entryPoints() []entryPoint {
 		{Name: "ChangeOwnership", Methods: []string{"ChangeOwnershipRecursively"}, Run: func(ctx context.Context, e *fsEnv) error {
 			return e.fs.ChangeOwnershipRecursively(ctx, e.P("/t/src"), me)
 		}},
-		{Name: "LsRecursive", Methods: []string{"LsRecursive"}, Run: func(ctx context.Context, e *fsEnv) error { _, err := e.fs.LsRecursive(ctx, e.P("/t/src"), true); return err }},
+		{Name: "LsRecursive", Methods: []string{"LsRecursive"}, Run: func(ctx context.Context, e *fsEnv) error { res, err := e.fs.LsRecursive(ctx, e.P("/t/src"), true); e.setResult(res); return err }},
 		{Name: "LsRecursiveExcl", Methods: []string{"LsRecursiveWithExclusionPatterns"}, Run: func(ctx context.Context, e *fsEnv) error {
-			_, err := e.fs.LsRecursiveWithExclusionPatterns(ctx, e.P("/t/src"), false, "f000.*")
+			res, err := e.fs.LsRecursiveWithExclusionPatterns(ctx, e.P("/t/src"), false, "f000.*")
+			e.setResult(res)
 			return err
 		}},
 		{Name: "LsRecursiveLimits", Methods: []string{"LsRecursiveWithExclusionPatternsAndLimits"}, Run: func(ctx context.Context, e *fsEnv) error {
-			_, err := e.fs.LsRecursiveWithExclusionPatternsAndLimits(ctx, e.P("/t/src"), lim(), true)
+			res, err := e.fs.LsRecursiveWithExclusionPatternsAndLimits(ctx, e.P("/t/src"), lim(), true)
+			e.setResult(res)
 			return err
 		}},
 		{Name: "LsRecursiveOpened", Methods: []string{"LsRecursiveFromOpenedDirectory"}, Prep: openDir, Run: func(ctx context.Context, e *fsEnv) error {
-			_, err := e.fs.LsRecursiveFromOpenedDirectory(ctx, e.open, true)
+			res, err := e.fs.LsRecursiveFromOpenedDirectory(ctx, e.open, true)
+			e.setResult(res)
 			return err
 		}},
 		{Name: "Move", Methods: []string{"MoveWithContext"}, Run: func(ctx context.Context, e *fsEnv) error { return e.fs.MoveWithContext(ctx, e.P("/t/src"), e.P("/t/moved/dst")) }},
@@ -273,7 +345,8 @@ func entryPoints() []entryPoint {
 			return e.fs.MoveWithContext(ctx, e.P("/t/src/big.bin"), e.P("/t/moved/big.bin"))
 		}},
 		{Name: "FileHash", Methods: []string{"FileHashWithContext"}, Run: func(ctx context.Context, e *fsEnv) error {
-			_, err := e.fs.FileHashWithContext(ctx, "SHA256", e.P("/t/src/big.bin"))
+			res, err := e.fs.FileHashWithContext(ctx, "SHA256", e.P("/t/src/big.bin"))
+			e.setResult(res)
 			return err
 		}},
 		{Name: "CopyToFile", Methods: []string{"CopyToFileWithContext"}, Run: func(ctx context.Context, e *fsEnv) error {
@@ -299,41 +372,50 @@ func entryPoints() []entryPoint {
 			return filesystem.CopyBetweenFSWithExclusionRegexes(ctx, e.fs, e.P("/t/src"), e.fs, e.P("/t/cp4"), []*regexp.Regexp{}, []*regexp.Regexp{})
 		}},
 		{Name: "SubDirectories", Methods: []string{"SubDirectoriesWithContext"}, Run: func(ctx context.Context, e *fsEnv) error {
-			_, err := e.fs.SubDirectoriesWithContext(ctx, e.P("/t/src"))
+			res, err := e.fs.SubDirectoriesWithContext(ctx, e.P("/t/src"))
+			e.setResult(res)
 			return err
 		}},
 		{Name: "SubDirectoriesExcl", Methods: []string{"SubDirectoriesWithContextAndExclusionPatterns"}, Run: func(ctx context.Context, e *fsEnv) error {
-			_, err := e.fs.SubDirectoriesWithContextAndExclusionPatterns(ctx, e.P("/t/src"), "d000")
+			res, err := e.fs.SubDirectoriesWithContextAndExclusionPatterns(ctx, e.P("/t/src"), "d000")
+			e.setResult(res)
 			return err
 		}},
 		{Name: "ListDirTree", Methods: []string{"ListDirTreeWithContext"}, Run: func(ctx context.Context, e *fsEnv) error {
 			var l []string
-			return e.fs.ListDirTreeWithContext(ctx, e.P("/t/src"), &l)
+			err := e.fs.ListDirTreeWithContext(ctx, e.P("/t/src"), &l)
+			e.setResult(l)
+			return err
 		}},
 		{Name: "ListDirTreeExcl", Methods: []string{"ListDirTreeWithContextAndExclusionPatterns", "pkg.ListDirTreeWithContextAndExclusionPatterns"}, Run: func(ctx context.Context, e *fsEnv) error {
 			var l []string
-			return e.fs.ListDirTreeWithContextAndExclusionPatterns(ctx, e.P("/t/src"), &l, "f000.*")
+			err := e.fs.ListDirTreeWithContextAndExclusionPatterns(ctx, e.P("/t/src"), &l, "f000.*")
+			e.setResult(l)
+			return err
 		}},
 		{Name: "GarbageCollect", Concurrent: true, Methods: []string{"GarbageCollectWithContext"}, Run: func(ctx context.Context, e *fsEnv) error {
 			return e.fs.GarbageCollectWithContext(ctx, e.P("/t/src"), -time.Hour)
 		}},
-		{Name: "Zip", Methods: []string{"ZipWithContext"}, Run: func(ctx context.Context, e *fsEnv) error { return e.fs.ZipWithContext(ctx, e.P("/t/src"), e.P("/t/out.zip")) }},
+		{Name: "Zip", Methods: []string{"ZipWithContext"}, Run: func(ctx context.Context, e *fsEnv) error { return e.zipResult(e.fs.ZipWithContext(ctx, e.P("/t/src"), e.P("/t/out.zip"))) }},
 		{Name: "ZipLimits", Methods: []string{"ZipWithContextAndLimits"}, Run: func(ctx context.Context, e *fsEnv) error {
-			return e.fs.ZipWithContextAndLimits(ctx, e.P("/t/src"), e.P("/t/out.zip"), lim())
+			return e.zipResult(e.fs.ZipWithContextAndLimits(ctx, e.P("/t/src"), e.P("/t/out.zip"), lim()))
 		}},
 		{Name: "ZipExcl", Methods: []string{"ZipWithContextAndLimitsAndExclusionPatterns"}, Run: func(ctx context.Context, e *fsEnv) error {
-			return e.fs.ZipWithContextAndLimitsAndExclusionPatterns(ctx, e.P("/t/src"), e.P("/t/out.zip"), filesystem.NoLimits(), "d000")
+			return e.zipResult(e.fs.ZipWithContextAndLimitsAndExclusionPatterns(ctx, e.P("/t/src"), e.P("/t/out.zip"), filesystem.NoLimits(), "d000"))
 		}},
 		{Name: "Unzip", Zip: true, Methods: []string{"UnzipWithContext"}, Run: func(ctx context.Context, e *fsEnv) error {
-			_, err := e.fs.UnzipWithContext(ctx, e.P("/t/a.zip"), e.P("/t/unz"))
+			res, err := e.fs.UnzipWithContext(ctx, e.P("/t/a.zip"), e.P("/t/unz"))
+			e.setResult(res)
 			return err
 		}},
 		{Name: "UnzipLimits", Zip: true, Methods: []string{"UnzipWithContextAndLimits"}, Run: func(ctx context.Context, e *fsEnv) error {
-			_, err := e.fs.UnzipWithContextAndLimits(ctx, e.P("/t/a.zip"), e.P("/t/unz"), lim())
+			res, err := e.fs.UnzipWithContextAndLimits(ctx, e.P("/t/a.zip"), e.P("/t/unz"), lim())
+			e.setResult(res)
 			return err
 		}},
 		{Name: "IsZip", Zip: true, Methods: []string{"IsZipWithContext"}, Run: func(ctx context.Context, e *fsEnv) error {
-			_, err := e.fs.IsZipWithContext(ctx, e.P("/t/a.zip"))
+			res, err := e.fs.IsZipWithContext(ctx, e.P("/t/a.zip"))
+			e.setResult(res)
 			return err
 		}},
 	}
@@ -387,6 +469,7 @@ type fsResult struct {
 	Diff     []string
 	OpsAfter []string
 	Final    map[string]string
+	Result   []string
 }
 
 type fsCase struct {
@@ -512,6 +595,7 @@ func runFS(ep *entryPoint, spec treeSpec, mode string, k int64, wantFinal bool, 
 	if wantFinal || (mode == "cancel-at" && res.Fired && res.Kind == "nil") {
 		res.Final = snapshot(e.inner)
 	}
+	res.Result = append([]string{}, e.result...)
 	return res, nil
 }
 
@@ -540,6 +624,21 @@ func checkPre(c fsCase, res fsResult) (fs []failure) {
 
 func sameSnap(a, b map[string]string) bool { return len(snapDiff(a, b)) == 0 }
 
+func sameResult(a, b []string) bool { // order-insensitive (garbage collection and maps have no order)
+	if len(a) != len(b) {
+		return false
+	}
+	x, y := append([]string{}, a...), append([]string{}, b...)
+	sort.Strings(x)
+	sort.Strings(y)
+	for i := range x {
+		if x[i] != y[i] {
+			return false
+		}
+	}
+	return true
+}
+
 func checkCancelAt(c fsCase, res fsResult, full fsResult) (fs []failure) {
 	if !res.Fired {
 		return
@@ -549,9 +648,15 @@ func checkCancelAt(c fsCase, res fsResult, full fsResult) (fs []failure) {
 			c.EP, c.Spec.entries(), c.K, res.After, res.MutAfter, opsAfterBound, res.OpsAfter), c})
 	}
 	if want := wantKind(c.flavour()); res.Kind != want {
-		// the only other acceptable outcome: the work was finished anyway (the context ended at the very end)
-		if !(res.Kind == "nil" && (res.Total == full.Total || sameSnap(res.Final, full.Final))) {
-			fs = append(fs, failure{"cancel-during-wrong-kind:" + c.EP, fmt.Sprintf("%s, context ended (%s) inside backend operation %d of %d: result kind %s (%s), expected %s (the work was not finished)", c.EP, c.flavour(), c.K, full.Total, res.Kind, res.Err, want), c})
+		// the only other acceptable outcome: the work was finished anyway (the context ended at the very end) — then the
+		// result handed back and the state left behind are those of an uncancelled run on a twin tree
+		if res.Kind == "nil" {
+			if !sameResult(res.Result, full.Result) || !sameSnap(res.Final, full.Final) {
+				fs = append(fs, failure{"cancel-during-incomplete-success:" + c.EP, fmt.Sprintf("%s, context ended (%s) inside backend operation %d of %d: the call returned no error, yet its result is not that of a complete run (%d result items instead of %d; state differences %v)",
+					c.EP, c.flavour(), c.K, full.Total, len(res.Result), len(full.Result), snapDiff(full.Final, res.Final)), c})
+			}
+		} else {
+			fs = append(fs, failure{"cancel-during-wrong-kind:" + c.EP, fmt.Sprintf("%s, context ended (%s) inside backend operation %d of %d: result kind %s (%s), expected %s", c.EP, c.flavour(), c.K, full.Total, res.Kind, res.Err, want), c})
 		}
 	}
 	return
@@ -567,6 +672,7 @@ type sweepStat struct {
 	MaxMut   int     `json:"max_mutating_after_cancel"`
 	Ks       []int64 `json:"-"`
 	Afters   []int64 `json:"-"`
+	Errored  []bool  `json:"-"`
 	fails    []failure
 	notes    []string
 	ok       bool
@@ -601,6 +707,7 @@ func fsSweep(seed int64, ep *entryPoint, spec treeSpec, stride int64) (st sweepS
 		if res.Fired {
 			st.Ks = append(st.Ks, k)
 			st.Afters = append(st.Afters, res.After)
+			st.Errored = append(st.Errored, res.Kind != "nil")
 		}
 		if res.After > st.MaxAfter {
 			st.MaxAfter, st.ArgK = res.After, k
@@ -699,7 +806,7 @@ func coverageNote(r *h.Run) {
 
 // Coq term of the tree /t/src of a spec (Model.v spec_tree)
 func coqTree(spec treeSpec) string {
-	return fmt.Sprintf("(spec_tree %d %d %d %d)", spec.Dirs, spec.Files, (spec.Big+32767)/32768, spec.Empty)
+	return fmt.Sprintf("(spec_tree %d %d %d %d %d)", spec.Dirs, spec.Files, (spec.Big+32767)/32768, spec.Empty, spec.Deep)
 }
 
 func dumpOps(ep *entryPoint, spec treeSpec) {
